@@ -150,6 +150,10 @@ class SurfaceFactory:
 
         if np.isinf(radius):
             geometry = Plane(cs)
+            if conic != 0:
+                # keep the conic for the time the surface gets a finite
+                # radius (Optic.set_conic / set_radius use this attribute)
+                geometry.k = conic
         else:
             geometry = StandardGeometry(cs, radius, conic)
 
